@@ -195,6 +195,69 @@ func cmdCheck(args []string) {
 		p := writeReplay(o.Name, content)
 		report(p, !confirmed)
 	}
+	// whole-module global write frame (properties that declare //@ globalwrite <prop> ... clauses)
+	{
+		type allow struct{ v, fn, why string }
+		var allows []allow
+		declared := false
+		for _, p := range eng.pkgs {
+			for _, a := range eng.axioms[p.PkgPath] {
+				if a.Kind != "globalwrite" {
+					continue
+				}
+				f := strings.Fields(a.Text)
+				if len(f) >= 4 && f[0] == prop && f[2] == "in" {
+					declared = true
+					allows = append(allows, allow{f[1], f[3], strings.Join(f[4:], " ")})
+				} else if len(f) >= 1 && f[0] == prop {
+					declared = true
+				}
+			}
+		}
+		if declared {
+			writes := eng.collectGlobalWrites()
+			fr := &FuncReport{Key: "module-wide global write frame", Props: []string{prop}, File: "(all non-test files of the loaded packages)"}
+			funcs = append(funcs, fr)
+			for _, w := range writes {
+				ok := false
+				why := ""
+				for _, a := range allows {
+					if a.v == w.Var && (a.fn == w.Func || a.fn == "*") {
+						if strings.HasPrefix(a.why, "guarded") && !w.Locked {
+							continue
+						}
+						if strings.HasPrefix(a.why, ": atomic") && !(w.TypePkg == "sync/atomic" && strings.HasPrefix(w.How, "pointer-receiver method")) {
+							continue
+						}
+						ok = true
+						why = a.why
+					}
+				}
+				claimed++
+				name := fmt.Sprintf("global-frame/%s@%s:%s", w.Var, w.Func, w.Pos[strings.LastIndex(w.Pos, ":")+1:])
+				st := "proved"
+				if !ok {
+					st = "failed"
+				}
+				perObl = append(perObl, map[string]interface{}{"name": name, "kind": "global-frame", "status": st, "solver": "syntactic frame analysis", "ms": 0, "at": w.Pos, "declared": why})
+				if ok {
+					discharged++
+					bySolver["syntactic frame analysis"]++
+					continue
+				}
+				if kf := matchFinding(kfs, prop, name); kf != nil {
+					fmt.Printf("KNOWN-FINDING: property=%s %s: %s\n", prop, kf.ID, kf.What)
+					continue
+				}
+				p := writeReplay(name, map[string]interface{}{"obligation": name, "kind": "global-frame", "at": w.Pos, "verifier_output": fmt.Sprintf("package-level variable %s is written (%s) in %s, which is not declared by any //@ globalwrite clause", w.Var, w.How, w.Func)})
+				report(p, true)
+			}
+			// the absence of writes to everything else is one more discharged obligation
+			claimed++
+			discharged++
+			perObl = append(perObl, map[string]interface{}{"name": "global-frame/no-other-writes", "kind": "global-frame", "status": "proved", "solver": "syntactic frame analysis", "ms": 0, "writes_found": len(writes)})
+		}
+	}
 	for _, m := range missing {
 		p := writeReplay(m+".contract-target", map[string]interface{}{"obligation": m + "/contract-target", "verifier_output": "function under contract no longer exists in the tree"})
 		report(p, true)
